@@ -86,12 +86,26 @@ def check(ctx):
 
     # ---- C07.b holders have releases ----
     holders = []
+    # a type holds a handle if it mentions a handle type or (transitively) a crate record with a holder field
+    holding_adts = set()
+    owned_elsewhere = {im.get("self_adt") for im in prog.impls if (im.get("trait") or "").endswith(("::Component", "::Resource", "::Command", "::SystemParam"))}
+    grew = True
+    while grew:
+        grew = False
+        for p, adt in prog.adts.items():
+            if p in holding_adts or p in owned_elsewhere or p.split("::")[-1] in HANDLE_TYPES or p.endswith("AutoDespawnSignalInner"):
+                continue
+            for v in adt["variants"]:
+                for f in v["fields"]:
+                    if any(h in f["ty"] for h in HANDLE_TYPES) or any(re.search(r"(?<![\w:])%s(?![\w])" % re.escape(q), f["ty"]) for q in holding_adts):
+                        holding_adts.add(p)
+                        grew = True
     for p, adt in prog.adts.items():
         if p.split("::")[-1] in HANDLE_TYPES or p.endswith("AutoDespawnSignalInner"):
             continue
         for v in adt["variants"]:
             for f in v["fields"]:
-                if any(h in f["ty"] for h in HANDLE_TYPES):
+                if any(h in f["ty"] for h in HANDLE_TYPES) or any(re.search(r"(?<![\w:])%s(?![\w])" % re.escape(q), f["ty"]) for q in holding_adts if q != p):
                     holders.append((p, v["name"], f["name"], f["ty"]))
     ctx.floor("C07.b", len(holders), 11, "holder fields (type mentions ReactorHandle / AutoDespawnSignal)")
     comp_impls = {im.get("self_adt") for im in prog.impls if (im.get("trait") or "").endswith("component::Component")}
@@ -122,6 +136,10 @@ def check(ctx):
                    "%d release operation(s), e.g. %s in %s" % (len(releases), releases[0][2], lib.fkey(releases[0][0])))
         elif adt in comp_impls:
             ctx.ok("C07.b", "%s:component-released-with-entity" % key, "", "component field")
+        elif any(a2 != adt and re.search(r"(?<![\w:])%s(?![\w])" % re.escape(adt), t2) for (a2, v2, f2, t2) in holders):
+            # a plain record owned by another holder field: dropped (or moved out field by field) with its owner, whose own
+            # release obligation is checked above
+            ctx.ok("C07.b", "%s:released-with-owning-record" % key, "", "field of a record stored in another holder")
         else:
             ctx.fail("C07.b", "%s:no-release" % key, "", "holder field %s: %s has no release operation anywhere in the crate (handles stored there are never dropped)" % (key, ty))
     ctx.sample({"holders": ["%s.%s" % (a.split("::")[-1], f) for a, v, f, t in holders]})
